@@ -203,7 +203,7 @@ def run(rep, tier, seed, replay=None):
         # Section 2, editions 2-4) replaced by 0..7 - shorter than the section's own fixed header (unsigned length arithmetic,
         # even-padding rule of editions <= 3) - with the rest of the message, and some trailing bytes, left in place
         for ed in (2, 3, 4):
-            for s2 in (None, b"local use", b"x"):
+            for s2 in ((None, b"x") if tier == "quick" else (None, b"local use", b"x")):      # the full family ran clean on the unchanged tree; quick keeps the part below the headers
                 base = bufrmsg.build(ed, [1001, 1002], 1, False, bytes([1, 2, 3, 4]), s2=s2)
                 offs = [8]
                 offs.append(offs[-1] + int.from_bytes(base[offs[-1]:offs[-1] + 3], "big"))
@@ -211,7 +211,7 @@ def run(rep, tier, seed, replay=None):
                     offs.append(offs[-1] + int.from_bytes(base[offs[-1]:offs[-1] + 3], "big"))
                 offs.append(offs[-1] + int.from_bytes(base[offs[-1]:offs[-1] + 3], "big"))
                 for o in offs:
-                    for v in range(8):
+                    for v in range(5 if tier == "quick" else 8):
                         for tail in (b"", b"A" * 300):
                             inputs.append(("section_length_boundary", base[:o] + v.to_bytes(3, "big") + base[o + 3:] + tail))
     text = "\n".join(m.hex() for _, m in inputs) + "\n"
